@@ -84,19 +84,12 @@ pub(super) async fn run_loop<C>(
 /// Time to wait for another command to send before starting the idle loop.
 const NEXT_COMMAND_IDLE_TIMEOUT: Duration = Duration::from_millis(100);
 
-#[cfg(feature = "verif-hooks")]
-pub(super) fn verif_next_command_idle_timeout() -> Duration {
-    NEXT_COMMAND_IDLE_TIMEOUT
-}
-
 async fn run_loop_iteration<C>(mut state: State<C>) -> Result<State<C>, ()>
 where
     C: AsyncRead + AsyncWrite + Unpin,
 {
     #[cfg(feature = "verif-hooks")]
-    crate::verif_hooks::emit(crate::verif_hooks::LoopEvent::IterStart {
-        idling: matches!(state.loop_state, LoopState::Idling),
-    });
+    crate::verif_hooks::emit(crate::verif_hooks::LoopEvent::IterStart);
 
     match state.loop_state {
         LoopState::Idling => {
